@@ -666,6 +666,8 @@ package decimal128
 //@ ensures !special(d) && !special(o) && coef(d) != 0 && coef(o) != 0 && sign(d) != (sign(o) != false) && Vd < Vo ==> sign(r) == !sign(d) && !isnan(r)
 //@    && (isinf(r) ==> Ovf(DefaultRoundingMode, sign(r), rs(Vo, 12287) - rs(Vd, 12287)))
 //@    && (!special(r) ==> RndOK(DefaultRoundingMode, sign(r), rs(Vo, bexp(r)) - rs(Vd, bexp(r)), coef(r), bexp(r)))
+//@ callarg Decimal.AddWithMode#1: arg_d == d && arg_o == o && arg_mode == DefaultRoundingMode
+//@ ensures r == callres_AddWithMode_1
 //@ props C01 C15 C19 C20
 
 //@ func Decimal.Sub
@@ -692,6 +694,8 @@ package decimal128
 //@ ensures !special(d) && !special(o) && coef(d) != 0 && coef(o) != 0 && sign(d) != (sign(o) != true) && Vd < Vo ==> sign(r) == !sign(d) && !isnan(r)
 //@    && (isinf(r) ==> Ovf(DefaultRoundingMode, sign(r), rs(Vo, 12287) - rs(Vd, 12287)))
 //@    && (!special(r) ==> RndOK(DefaultRoundingMode, sign(r), rs(Vo, bexp(r)) - rs(Vd, bexp(r)), coef(r), bexp(r)))
+//@ callarg Decimal.SubWithMode#1: arg_d == d && arg_o == o && arg_mode == DefaultRoundingMode
+//@ ensures r == callres_SubWithMode_1
 //@ props C01 C15 C19 C20
 
 
@@ -1248,6 +1252,8 @@ package decimal128
 //@ ensures !special(d) && !special(o) && coef(o) == 0 && coef(d) == 0 ==> isnan(r) && !sign(r) && hi(r) == 0x7c00000000000000
 //@    && lo(r) == payloadOpQuo + 256*ite(sign(d), payloadValNegZero, payloadValPosZero) + 65536*ite(sign(o), payloadValNegZero, payloadValPosZero)
 //@ ensures !special(d) && !special(o) && coef(o) == 0 && coef(d) != 0 ==> isinf(r) && sign(r) == (sign(d) != sign(o)) && lo(r) == 0
+//@ callarg Decimal.QuoWithMode#1: arg_d == d && arg_o == o && arg_mode == DefaultRoundingMode
+//@ ensures r == callres_QuoWithMode_1
 //@ props C02 C15 C19 C20
 
 //@ func Decimal.Mul
@@ -1266,6 +1272,8 @@ package decimal128
 //@ ensures isinf(d) && !special(o) && coef(o) == 0 ==> isnan(r) && !sign(r) && hi(r) == 0x7c00000000000000
 //@    && lo(r) == payloadOpMul + 256*ite(sign(d), payloadValNegInfinite, payloadValPosInfinite) + 65536*ite(sign(o), payloadValNegZero, payloadValPosZero)
 //@ ensures (isinf(d) && (isinf(o) || (!special(o) && coef(o) != 0))) || (isinf(o) && !special(d) && coef(d) != 0) ==> isinf(r) && sign(r) == (sign(d) != sign(o)) && lo(r) == 0
+//@ callarg Decimal.MulWithMode#1: arg_d == d && arg_o == o && arg_mode == DefaultRoundingMode
+//@ ensures r == callres_MulWithMode_1
 //@ props C02 C15 C19 C20
 
 // ---------------------------------------------------------------------------
@@ -2147,6 +2155,7 @@ package decimal128
 //@    && lo(r) == payloadOpQuoRem + 256*ite(sign(d), payloadValNegFinite, payloadValPosFinite) + 65536*ite(sign(o), payloadValNegZero, payloadValPosZero)
 //@ ensures !special(d) && !special(o) && coef(o) != 0 && coef(d) == 0 ==> !special(q) && coef(q) == 0 && sign(q) == (sign(d) != sign(o)) && !special(r) && coef(r) == 0 && sign(r) == sign(d)
 //@ ensures !special(d) && !special(o) && coef(o) != 0 && coef(d) != 0 && bexp(d) < bexp(o) && Vd < Vo ==> !special(q) && coef(q) == 0 && bexp(q) == 0 && sign(q) == (sign(d) != sign(o)) && r == d
+//@ callarg Decimal.QuoRemWithMode#1: arg_d == d && arg_o == o && arg_mode == DefaultRoundingMode
 //@ props C03 C15 C20
 
 // ---------------------------------------------------------------------------
